@@ -8,20 +8,15 @@
 // compiler), not a byte array: CBMC keeps typed struct members field-sensitive, whereas typed accesses into a large byte array lose
 // every constant (pointers, sizes) stored there. Use at namespace scope: `static PhantomStore<Chainstate> g_cs;`.
 template <class T> union PhantomStore {
-    char zero_;
     T o;
-    constexpr PhantomStore() : zero_{0} {}
+    PhantomStore() {}
     ~PhantomStore() {}
     T& obj() { return o; }
 };
-// slot of a reference member of `obj` that directly follows member `prev` (reference members have no address of their own).
-// Pure pointer arithmetic relative to the object (no integer casts of addresses: CBMC would lose the target object).
-template <class O, class P> static inline void** ref_slot_after(O& obj, const P& prev)
-{
-    size_t off = (size_t)((const char*)(const void*)&prev - (const char*)(const void*)&obj) + sizeof(P);
-    off = (off + 7) & ~(size_t)7;
-    return (void**)((char*)(void*)&obj + off);
-}
+// slot of a reference member of `obj` (of class Class) that directly follows member `prev` (reference members have no address of
+// their own). Compile-time offset, pure pointer arithmetic (no integer casts of addresses: CBMC would lose the target object).
+#pragma clang diagnostic ignored "-Winvalid-offsetof"
+#define REF_SLOT_AFTER(obj, Class, prev) ((void**)((char*)(void*)&(obj) + ((__builtin_offsetof(Class, prev) + sizeof((obj).prev) + 7) & ~(size_t)7)))
 // store a value into a const member
 template <class T, class V> static inline void poke(const T& member, V v) { *const_cast<T*>(&member) = (T)v; }
 // CChain of symbolic height without allocating blocks: std::vector<CBlockIndex*> {begin, end, cap} with end = begin + (height+1).
